@@ -1,42 +1,6 @@
 import PrysmVerif.Wire
-import PrysmVerif.Model.C03
-open Wire Model.C03
-
-abbrev C := Cx Float
-
-def twoPi : Float := 6.283185307179586476925286766559
-
-/-- forward kernel `e t = exp(-2πi t)` -/
-def eF (t : Float) : C := ⟨Float.cos (twoPi * t), -(Float.sin (twoPi * t))⟩
-def eI (t : Float) : C := eF (-t)
-
-def getC (a : Array (Array C)) (j i : Nat) : C := (a.getD j #[]).getD i ⟨0, 0⟩
-
-/-- memoised evaluation of `Model.C03.mdft2`: rows first (`ary @ Ein`), then columns (`Eout @ …`) -/
-def table2 (e : Float → C) (m n M N : Nat) (αy αx sy sx : Float) (norm : C) (f : Array (Array C)) : Array (Array C) :=
-  let rows := (Array.range m).map fun j => (Array.range N).map fun l => mdft1 e n N αx sx (fun i => getC f j i) l
-  (Array.range M).map fun k => (Array.range N).map fun l => norm * mdft1 e m M αy sy (fun j => getC rows j l) k
-
-def parseGrid (m n : Nat) (xs : List Float) : Array (Array C) :=
-  let a := xs.toArray
-  (Array.range m).map fun j => (Array.range n).map fun i =>
-    (⟨a.getD (2 * (j * n + i)) 0, a.getD (2 * (j * n + i) + 1) 0⟩ : C)
-
-def fmtGrid (g : Array (Array C)) : String :=
-  " ".intercalate (g.toList.flatMap fun row => row.toList.flatMap fun c => [fmtFloat c.re, fmtFloat c.im])
-
-def floats? (l : List String) : Option (List Float) := l.mapM parseFloatBits?
-
-/-- model of `focus_fixed_sampling` / `unfocus_fixed_sampling` as a table -/
-def fixedTable (inv : Bool) (m n M N : Nat) (dx z lam dxo shx shy : Float) (f : Array (Array C)) : Array (Array C) :=
-  let αy : Float := axisAlpha m.toFloat dx z lam dxo
-  let αx : Float := axisAlpha n.toFloat dx z lam dxo
-  table2 (if inv then eI else eF) m n M N αy αx (shiftSamples shy dxo) (shiftSamples shx dxo)
-    (Cx.ofReal (Float.sqrt αy * Float.sqrt αx)) f
-
-/-- one point of the table straight from `Model.C03.fixedSampling` (no memoisation), used as a self-check -/
-def fixedPoint (inv : Bool) (m n M N : Nat) (dx z lam dxo shx shy : Float) (f : Array (Array C)) (k l : Nat) : C :=
-  fixedSampling (if inv then eI else eF) Cx.ofReal Float.sqrt m n M N dx z lam dxo shx shy (fun j i => getC f j i) k l
+import PrysmVerif.Model.C03Exec
+open Wire Model.C03 Model.C03.Exec
 
 /-- model of `Wavefront.focus` / `unfocus`: pad (origin on origin), rotate, DFT, rotate back, ortho scale;
 reported spacing from axis 1 of the padded array -/
